@@ -67,6 +67,7 @@ type ErrPlan struct {
 	ProxyMeta http.Header // status keys of an upstream error passed through in the error's metadata (a proxying handler)
 	CtxErr    bool        // wait for the handler's context to finish, return ctx.Err()
 	CtxKind   int         // 1 context.Canceled, 2 context.DeadlineExceeded, 3/4 the same wrapped with %w
+	WrapEOF   bool        // the error's cause wraps io.EOF (a backend that hung up: Post "...": EOF); Msg ends in ": EOF"
 	WrapCtx   int         // coded error whose cause wraps a context error of a sub-operation: 1 context.Canceled, 2 context.DeadlineExceeded
 	Shared    bool        // a sentinel: every call that shares this plan returns the very same error value
 	Wrapped   bool        // the coded error is returned wrapped: fmt.Errorf("...: %w", connectErr)
@@ -120,6 +121,8 @@ type CallPlan struct {
 	clientLimit         bool          // C14: the call ends on the client's own read limit
 	Abandon             bool          // client-stream: once the program has cancelled the context it calls nothing more (no CloseAndReceive)
 	protoRefused        bool          // C14: the handler lacks the compression the client sends with
+	doFails             bool          // C14: HTTPClient.Do fails (nothing answers at that address)
+	LiveCtx             bool          // the call's context can be cancelled but never is while the run lasts (a server's request context)
 	unsendable          int           // C01: 1 + index of the request message the client's codec cannot marshal (0: none)
 	panicAfterCtx       bool
 	ReturnSendErr       bool     // the handler returns the error of a failed Send (as handlers do)
